@@ -175,6 +175,35 @@ def generate(rng, tier):
             exp = Fr(a) / (Fr(b) * v["size"] / u["size"])
             text = qty(rng, a, u, sep) + " / " + qty(rng, b, v, sep)
             cases.append(exec_case(text, "en", pre=pre_of(sep), kind="qty/qty", typ="number", expect=frac(exp)))
+    # 4b. sums of three to six quantities of one kind, units repeated, the last quantity closing the line: every operand
+    #     is converted into the unit of the LEFT-MOST one
+    for _ in range(40 if quick else 500):
+        kind = rng.choice(list(KINDS))
+        m = rng.randint(3, 6)
+        pool = rng.sample(KINDS[kind], min(len(KINDS[kind]), rng.randint(2, 3)))
+        us = [rng.choice(pool) for _ in range(m)]
+        sep = rng.choice(SEPS)
+        am = [rng.choice([1, 2, 3, 5, 12, 0.5, 250]) for _ in range(m)]
+        total, text = Fr(am[0]), qty(rng, am[0], us[0], sep)
+        for a, u in zip(am[1:], us[1:]):
+            op = "+" if rng.random() < 0.75 else "-"
+            bv = Fr(a) * u["size"] / us[0]["size"]
+            total = total + bv if op == "+" else total - bv
+            text += " " + op + " " + qty(rng, a, u, sep)
+        cases.append(exec_case(text, "en", pre=pre_of(sep), kind="qty-sum-%d" % m, typ="qty", expect=frac(total), unit=us[0]["key"]))
+    for text, val, key in (("1 cm + 5 m + 5 m + 1 km", 1 + 500 + 500 + 100000, "cm"), ("1 byte + 2 kb + 2 kb + 1 mb", 1 + 2048 + 2048 + 1048576, "byte"),
+                           ("1 oz + 3 lb + 3 lb + 1 stone", 1 + 48 + 48 + 224, "oz")):
+        u = next((x for x in UNITS.values() if key in x["names"] or key in x["spell"]), None)
+        if u is not None:
+            cases.append(exec_case(text, "en", kind="qty-sum-pinned", typ="qty", expect=frac(F(val)), unit=u["key"]))
+    # 4c. the amount supplied by a variable, in front of the unit word; and a variable NAMED like a unit word
+    for text, val, key in (("x = 10\nx kg", 10, "kg"), ("x = 10\nx kg to g", 10000, "g"), ("x = 10\nx m + 5 m", 15, "m"),
+                           ("len = 3\nlen km to m", 3000, "m"), ("n = 2\nn mb to kb", 2048, "kb")):
+        u = next((x for x in UNITS.values() if key in x["names"]), None)
+        if u is not None:
+            cases.append(exec_case(text, "en", kind="variable-amount", typ="qty", expect=frac(F(val)), unit=u["key"]))
+    for text, val in (("m = 5\n10 m", 15), ("m = 5\n10 m + 2", 17), ("kb = 3\n2 kb", 5)):
+        cases.append(exec_case(text, "en", kind="variable-named-like-unit", typ="number", expect=frac(F(val))))
     # 5. round trips and chains through a variable (A to B, the result to A resp. to C)
     n_rt = 60 if quick else 800
     for _ in range(n_rt):
@@ -234,6 +263,8 @@ def spec_check(c, rec, header):
             return "expected two results, got %r" % (lines,)
         r = check_qty(lines[0], F(*m["expect1"]), m["unit1"])
         return r or check_qty(lines[1], F(*m["expect"]), m["unit"])
+    if m.get("kind", "").startswith("variable-"):
+        lines = lines[-1:]               # earlier lines bind the variables
     if len(lines) != 1:
         return "expected one result, got %r" % (lines,)
     line = lines[0]
